@@ -3,7 +3,7 @@
 # /tmp/<tag>out/<PROP>/m1, m2 as seeded/<PROP>-<first-id>, <first-id+1> (scratch copies only; never touches /repo).
 scr="$1"; tag="$2"; shift 2
 export SCR="$scr" VERIF_NO_MIRI="${VERIF_NO_MIRI:-1}"
-export ORIGIN="tenth round: written by an independent sub-agent that saw only the property text (statement, quantifier, anchors) and its own scratch worktree of the repaired /repo; nothing from /verif"
+export ORIGIN="${ROUND:-tenth} round: written by an independent sub-agent that saw only the property text (statement, quantifier, anchors) and its own scratch worktree of the repaired /repo; nothing from /verif"
 for spec in "$@"; do
   p="${spec%%:*}"; n="${spec##*:}"
   for m in m1 m2; do
